@@ -71,7 +71,7 @@ class Contract:
 
 class LoopContract:
     def __init__(self, targets, invariant, modifies=(), decreases=None, index="_i", seq=None, heap_modifies=(),
-                 stepwise=(), match_assume=()):
+                 stepwise=(), match_assume=(), cell_types=None):
         self.targets = targets          # loop target names (fingerprint)
         self.invariant = list(invariant)  # clauses over locals + index var
         self.modifies = list(modifies)  # local names havoc'd (in addition to syntactically assigned)
@@ -80,6 +80,7 @@ class LoopContract:
         self.index = index
         self.stepwise = list(stepwise)
         self.match_assume = list(match_assume)
+        self.cell_types = dict(cell_types or {})
 
 
 class SpecFn:
